@@ -98,6 +98,7 @@ class State:
         self.in_range = set()  # ids (hash) of raw terms known to be in range
         self.frames = []
         self.log = []  # call log written by environment stubs (per path)
+        self.roots = []  # the top-level argument values *of this path* (forks deep-copy them with the state)
 
     def fork(self):
         return copy.deepcopy(self)
@@ -306,6 +307,7 @@ class Executor:
         """Execute fn on argument values. Returns [(state, return value)] (one per path)."""
         if st is None:
             st = State()
+        st.roots = list(args)
         return self.exec_fn(fn, args, st, 0)
 
     def exec_fn(self, fn, args, st, depth):
